@@ -179,9 +179,6 @@ func TestC10_enum_Coop(t *testing.T) {
 	if kit.Thorough() {
 		k = 9
 	}
-	if kit.Shards > 1 && kit.Shard > 0 {
-		t.Skip("enumeration runs in shard 0 only")
-	}
 	vals := []uint8{0, 1, 3}
 	sets := []struct{ limit, h, w int }{{1, 1, 1}, {1, 1, 2}, {2, 2, 1}, {2, 1, 2}, {2, 2, 2}}
 	for _, base := range c10Kinds {
@@ -191,7 +188,7 @@ func TestC10_enum_Coop(t *testing.T) {
 				for i := 0; i < k; i++ {
 					total *= len(vals)
 				}
-				for code := 0; code < total; code++ {
+				for code := kit.Shard; code < total; code += kit.Shards {
 					ys := make([]uint8, k)
 					x := code
 					for i := range ys {
